@@ -30,6 +30,10 @@ CHECKS = {
                 text="Grid (resend delay 1 s, 1 ns resolution): one Query with NumTries 1..3 x reply instant x ctx-cancel instant x Server.Close instant, each in {never, right after the first send, d/2, k*d - 1 ns, k*d + 1 ns}, x scripted socket write error on send i, x rate-limit options {default, NoWaitFirst, WaitOnRetries, NotAny} with a full or an empty limiter; every API call (Ping, FindNode, GetPeers, Get, Put) and every traversal (Bootstrap, BootstrapContext, AnnounceTraversal with/without announcing and with Close / StopTraversing, getput.Get mutable and immutable, getput.Put) under 7 start conditions (empty starting nodes, nil resolver, resolver error, one silent node, one answering node, 3-node network with a silent member, two nodes one silent) x stop instant {never, 0, 0.5 s, 2.5 s}; failing starts are repeated 3 times on one server. Oracle: the call returns; with the cause whose decisive instant comes first (reply / ctx / send error / closed / time-out after the last resend interval; same-instant ties accept either); at most NumTries datagrams and none after the return; in the first quiescent state after the return no pending transaction (Stats and dispatcher) and no goroutine with a frame in the module except the serve loop; after Close a new query fails and writes nothing and no goroutine remains.",
                 note="BootstrapContext returns at once on ctx cancellation while its context-less find_node queries run to their own time-out: for that case cleanup is checked at the horizon instead of at the return; goroutines stranded by earlier executions in the same process are excluded by bubble id",
                 ref="DESIGN.md 5/C14"),
+    "C16": dict(level="model_checking", technique=E1 + "; letters are the pending outbound queries of the real AnnounceTraversal (answer / let time out) plus Close / StopTraversing at every position",
+                text="Real Server.AnnounceTraversal over simulated networks of 3-4 peers (peer i lists the later peers) with per-peer get_peers behaviour in {token+nodes, token+values, no token, empty token, error reply, silent, answers under another ID}: all 343 assignments for 3 peers plus designed 3- and 4-peer networks x options {port, implied_port, scrape+port, no announce} x consumer {reads to the end, stops after 0/1 deliveries then closes and drains, stops for good and closes} x {no stop, Close, StopTraversing at every position} x 1-2 starting nodes. DFS with canonical-state dedup over every order of answering / timing out the pending get_peers and announce_peer queries. Oracle in every state: announce_peer only when enabled, only to nodes that answered get_peers with a token in this traversal, at most one each, carrying exactly that node's token (empty string included), the announced info_hash and the configured port / implied_port; Peers never delivers more than was received. At every terminal state: each closest-set member got exactly one announce_peer (unless Close intervened), every response received while the consumer was reading was delivered once with the responder's address and claimed ID, Peers is closed and Finished() readable.",
+                note="with at most 4 peers and K=8 the closest set is the set of token-bearing responders; the unexported traversal is not inspected. Known finding K2 (consumer that never reads again + Close) is reported as KNOWN-FINDING",
+                ref="DESIGN.md 5/C16"),
     "C05": dict(level="model_checking", technique=E1,
                 text="All event histories up to the stated depth (full alphabet depth 2 / core alphabet depth 4 quick; deeper thorough) from 5 start states x 2 configurations are executed on the real Server; after every event the table snapshot must be a well-formed Kademlia table and agree with NumNodes/Stats/Nodes/WriteStatus. Bounded exhaustive, not a proof.",
                 note="go1.26.8 synctest runtime; VerifTable hook snapshot is trusted to copy the table faithfully; eviction victim among equally eligible entries is chosen by Go map order and not enumerated",
